@@ -23,26 +23,32 @@ Definition phase2_ran (rs : list Rect) (r : Qc) (n : Z) : bool :=
   | _ => false
   end.
 
-(* same multiset of rectangles *)
-Fixpoint perm_rects (a b : list Rect) : bool :=
-  match a with
-  | [] => match b with [] => true | _ => false end
-  | x :: a' => match remove1 x b with Some b' => perm_rects a' b' | None => false end
-  end.
 Definition equals_greedy (rs : list Rect) (r : Qc) (n : Z) (out : list Rect) : bool :=
   match split_rectangles_greedy rs r n with Ok o => perm_rects o out | _ => false end.
 
 (* floorplanning_rectangles() as observed *)
 Definition fp_eqb (d : DieSt) (refin fixd : list Rect) : bool :=
-  rects_eqb (fst (floorplanning_rectangles d)) refin && rects_eqb (snd (floorplanning_rectangles d)) fixd.
+  perm_rects (fst (floorplanning_rectangles d)) refin && perm_rects (snd (floorplanning_rectangles d)) fixd.
 
-(* initial_grid: exact, or up to k roundings at the magnitude of the die *)
+(* the same die; the refinable regions as multisets (the property promises no order of the lists) *)
 Definition die_eqb (a b : DieSt) : bool :=
-  same_rect (bbox a) (bbox b) && rects_eqb (spec a) (spec b) && rects_eqb (ground a) (ground b) &&
+  same_rect (bbox a) (bbox b) && perm_rects (spec a) (spec b) && perm_rects (ground a) (ground b) &&
   rects_eqb (blockages a) (blockages b) && rects_eqb (fixedr a) (fixedr b).
+(* initial_grid: exact, or up to k roundings at the magnitude of the die (cells matched in any order:
+   distinct cells are a whole cell apart, far more than the tolerance) *)
+Fixpoint remove_close (k : Z) (scale : Qc) (x : Rect) (l : list Rect) : option (list Rect) :=
+  match l with
+  | [] => None
+  | y :: l' => if rect_close k scale x y then Some l' else option_map (cons y) (remove_close k scale x l')
+  end.
+Fixpoint perm_close (k : Z) (scale : Qc) (a b : list Rect) : bool :=
+  match a with
+  | [] => match b with [] => true | _ => false end
+  | x :: a' => match remove_close k scale x b with Some b' => perm_close k scale a' b' | None => false end
+  end.
 Definition die_close (k : Z) (scale : Qc) (a b : DieSt) : bool :=
-  same_rect (bbox a) (bbox b) && rects_eqb (spec a) (spec b) &&
-  list_eqb (rect_close k scale) (ground a) (ground b) &&
+  same_rect (bbox a) (bbox b) && perm_rects (spec a) (spec b) &&
+  perm_close k scale (ground a) (ground b) &&
   rects_eqb (blockages a) (blockages b) && rects_eqb (fixedr a) (fixedr b).
 Definition grid_agrees (exact : bool) (scale : Qc) (d : DieSt) (nrows ncols : Z) (d' : DieSt) : bool :=
   match initial_grid d nrows ncols with
